@@ -6,6 +6,7 @@ package repl
 
 import (
 	"bufio"
+	"context"
 	"crypto/sha256"
 	"encoding/hex"
 	"encoding/json"
@@ -27,6 +28,7 @@ import (
 	"github.com/ethereum/go-ethereum/crypto"
 
 	cpctypes "github.com/EscanBE/evermint/v12/x/cpc/types"
+	evmtypes "github.com/EscanBE/evermint/v12/x/evm/types"
 
 	"verifharness/chain"
 	"verifharness/drivers"
@@ -45,6 +47,9 @@ type History struct {
 	Blocks  [][][]byte `json:"blocks"`
 	// WallEnd: wall-clock unix second at which the vesting account "vw" of this history ends (0 = none)
 	WallEnd int64 `json:"wallEnd"`
+	// Token2: address of the ERC-20 precompile deployed by message in the middle of the history ("" = none)
+	Token2   string `json:"token2"`
+	DeployAt int    `json:"deployAt"`
 }
 
 func digest(parts ...string) string {
@@ -116,6 +121,7 @@ func Generate(seed int64, ti int, blocks int, out *trace.W, stats map[string]int
 		o.NVals = 3
 		o.CpcDeployErc20Native = true
 		o.CpcDeployStaking = true
+		o.CpcWhitelist = []string{chain.NewAcct("a1").Acc().String()}
 		if ti == 0 {
 			// an empty vesting account that is expired by every header time (year 2100) but not yet by the wall clock
 			wallEnd = time.Now().Unix() + 3
@@ -130,11 +136,37 @@ func Generate(seed int64, ti int, blocks int, out *trace.W, stats map[string]int
 		erc20 = *a
 	}
 	created := 0
+	deployAt := 1 + r.Intn(blocks/2+1)
+	h.DeployAt = -1
+	var token2 *common.Address
 	for b := 0; b < blocks; b++ {
 		n := r.Intn(6)
 		var txs [][]byte
 		nextNonce := map[string]uint64{}
 		baseFee := c.BaseFee().Int64()
+		if b == deployAt {
+			// a whitelisted deployer registers an ERC-20 precompile for the second denomination by message
+			a := c.Accts[1]
+			seq := c.Seq(a.Addr)
+			msg := &cpctypes.MsgDeployErc20ContractRequest{Authority: a.Acc().String(), Name: "Two", Symbol: "TWO", Decimals: 6, MinDenom: chain.Denom2}
+			bz, err := c.CosmosTx(a, []sdk.Msg{msg}, chain.CosmosTxOpts{Gas: 500000, GasPrice: baseFee + 1, Seq: &seq})
+			if err != nil {
+				panic(err)
+			}
+			txs = append(txs, bz)
+			nextNonce["a1"] = seq + 1
+			stats["cpc-deploy-msg"]++
+		}
+		if token2 != nil && r.Intn(2) == 0 {
+			ai := 2 + r.Intn(3)
+			a := c.Accts[ai]
+			name := fmt.Sprintf("a%d", ai)
+			seq := c.Seq(a.Addr)
+			txd := &ethtypes.LegacyTx{Nonce: seq, GasPrice: big.NewInt(baseFee + 2), Gas: 150000, To: token2, Value: big.NewInt(0), Data: erc20Transfer(c.Accts[0].Addr, int64(1+r.Intn(20)))}
+			txs = append(txs, c.EthTx(a, txd))
+			nextNonce[name] = seq + 1
+			stats["cpc-erc20-token2"]++
+		}
 		if wallEnd != 0 && b == 0 {
 			// touch the wall-clock-sensitive vesting account right away (zero-value call from c4)
 			a := c.Accts[0]
@@ -211,6 +243,12 @@ func Generate(seed int64, ti int, blocks int, out *trace.W, stats map[string]int
 		if bo.Panic != nil || bo.Err != nil {
 			break
 		}
+		if b == deployAt {
+			if a := c.App.CPCKeeper.GetErc20CustomPrecompiledContractAddressByMinDenom(c.Ctx(), chain.Denom2); a != nil {
+				token2 = a
+				h.Token2, h.DeployAt = a.Hex(), b
+			}
+		}
 	}
 	return h, c
 }
@@ -218,6 +256,41 @@ func Generate(seed int64, ti int, blocks int, out *trace.W, stats map[string]int
 // Replay re-executes h on a fresh instance; reloadAt > 0 copies the database after that many blocks,
 // reloads a new application from the copy and continues there.
 func Replay(h *History, rep string, node func(*chain.Opts), reloadAt int, emit func(trace.M)) {
+	replay(h, rep, node, reloadAt, false, emit)
+}
+
+// rpcLoad makes the node serve requests between blocks, as a public RPC node does: eth_call at the tip and at
+// historical heights, mempool admission and simulation of the next block's first transaction. None of it may
+// influence what the next blocks compute.
+func rpcLoad(c *chain.Chain, h *History, i int, next [][]byte) {
+	defer func() { _ = recover() }()
+	targets := []common.Address{}
+	if a := c.App.CPCKeeper.GetErc20CustomPrecompiledContractAddressByMinDenom(c.Ctx(), chain.Denom); a != nil {
+		targets = append(targets, *a)
+	}
+	if h.Token2 != "" {
+		targets = append(targets, common.HexToAddress(h.Token2))
+	}
+	sel := crypto.Keccak256([]byte("balanceOf(address)"))[:4]
+	data := append(append([]byte{}, sel...), common.LeftPadBytes(c.Accts[0].Addr.Bytes(), 32)...)
+	for _, t := range targets {
+		for _, height := range []int64{c.Height - 1, c.Height - 2, 0} {
+			if height < 0 || (height > 0 && height < 2) {
+				continue
+			}
+			args, _ := json.Marshal(map[string]interface{}{"from": c.Accts[3].Addr.Hex(), "to": t.Hex(), "data": "0x" + hex.EncodeToString(data)})
+			req := &evmtypes.EthCallRequest{Args: args, GasCap: 25_000_000}
+			bz, _ := req.Marshal()
+			_, _ = c.App.Query(context.Background(), &abci.RequestQuery{Path: "/ethermint.evm.v1.Query/EthCall", Data: bz, Height: height})
+		}
+	}
+	if len(next) > 0 {
+		_, _ = c.App.CheckTx(&abci.RequestCheckTx{Tx: next[0], Type: abci.CheckTxType_New})
+		_, _, _ = c.App.Simulate(next[0])
+	}
+}
+
+func replay(h *History, rep string, node func(*chain.Opts), reloadAt int, load bool, emit func(trace.M)) {
 	o := chain.DefaultOpts()
 	o.NAccts, o.NVals, o.ValBond, o.MaxGas = h.NAccts, h.NVals, h.ValBond, h.MaxGas
 	if node != nil {
@@ -227,6 +300,9 @@ func Replay(h *History, rep string, node func(*chain.Opts), reloadAt int, emit f
 	for i, txs := range h.Blocks {
 		if reloadAt > 0 && i == reloadAt {
 			c = c.Clone()
+		}
+		if load {
+			rpcLoad(c, h, i, txs)
 		}
 		bo := c.Deliver(txs...)
 		emit(BlockRecord(rep, bo))
@@ -250,6 +326,8 @@ func Run(seed int64, n, blocks int, out *trace.W, self string) map[string]int {
 		runtime.GOMAXPROCS(prev)
 		// r3: database copied and application reloaded in the middle
 		Replay(h, "r3", nil, 1+len(h.Blocks)/2, emit)
+		// r6: a node that serves RPC requests between the blocks
+		replay(h, "r6", nil, 0, true, emit)
 		// r5: the same again after the wall clock has passed the end time of the vesting account "vw"
 		if h.WallEnd != 0 {
 			if d := time.Until(time.Unix(h.WallEnd+1, 0)); d > 0 {
